@@ -407,6 +407,7 @@ func runC10(c *Ctx) *Replay {
 				fk = "read-partial"
 			case 2:
 				fs.RFault.Transient = true
+				fs.RFault.Partial = k%2 == 1 // a short read WITH the error, then the stream goes on
 				fk = "read-transient"
 			}
 			viol := execReadFile(c.N, &fs)
